@@ -4,6 +4,7 @@ import (
 	"flag"
 	"fmt"
 	"os"
+	"runtime"
 	"sort"
 	"strings"
 	"time"
@@ -100,6 +101,14 @@ func runCase(w *tr.Writer, id string, cfg caseCfg, body func(r *runner)) {
 	w.Op(cfg.cfgOp())
 	r := &runner{x: x, w: w}
 	t0 := time.Now()
+	// watchdog: a case that does not finish is a harness bug; show where everything is blocked
+	wd := time.AfterFunc(40*time.Second, func() {
+		buf := make([]byte, 1<<20)
+		n := runtime.Stack(buf, true)
+		fmt.Fprintf(os.Stderr, "drv-engine: case %s stuck for 40 s\n%s\n", id, buf[:n])
+		os.Exit(3)
+	})
+	defer wd.Stop()
 	panicked, msg := tr.Guard(func() { body(r) })
 	if os.Getenv("VERIF_TIMING") != "" {
 		fmt.Fprintf(os.Stderr, "%s body %v\n", id, time.Since(t0))
